@@ -142,6 +142,19 @@ def catalogue(etl):
         U('rowlengths', lambda a: etl.rowlengths(a), None),
         U('stats', lambda a: [tuple(etl.stats(a, 'v'))[:1]], None),
         U('limits', None, None) if False else U('validate', lambda a: etl.validate(a, header=('k', 'v')), None),
+        # the same operators with a non-default missing value (it must reach every padded cell also when an input has no rows)
+        ] + [(fn + '(missing)', 2, (lambda a, b, fn=fn: getattr(etl, fn)(a, b, key='k', missing='NA')),
+              (lambda a, b, kind=kind: 'join %s %s - - %s %s - %s %s' % (kind, E('NA'), K('k'), K('k'), ET(a), ET(b))))
+             for kind, fn in (('left', 'leftjoin'), ('right', 'rightjoin'), ('outer', 'outerjoin'), ('lookup', 'lookupjoin'))
+        ] + [(fn + '(missing)', 2, (lambda a, b, fn=fn: getattr(etl, fn)(a, b, key='k', missing='NA')),
+              (lambda a, b, kind=kind: 'hashjoin %s %s - - %s %s %s %s' % (kind, E('NA'), K('k'), K('k'), ET(a), ET(b))))
+             for kind, fn in (('left', 'hashleftjoin'), ('right', 'hashrightjoin'), ('lookup', 'hashlookupjoin'))
+        ] + [
+        U('addcolumn(missing)', lambda a: etl.addcolumn(a, 'c', [1, 2], missing='NA'), lambda a: 'xf addcolumn %s %s - %s %s' % (E('c'), E((1, 2)), E('NA'), ET(a))),
+        U('addcolumn(missing=0,index=0)', lambda a: etl.addcolumn(a, 'c', [1], index=0, missing=0), lambda a: 'xf addcolumn %s %s 0 %s %s' % (E('c'), E((1,)), E(0), ET(a))),
+        ('cat(missing)', 2, lambda a, b: etl.cat(a, b, missing='NA'), lambda a, b: 'xf cat %s - 2 %s %s' % (E('NA'), ET(a), ET(b))),
+        ('annex(missing)', 2, lambda a, b: etl.annex(a, b, missing='NA'), lambda a, b: 'xf annex %s 2 %s %s' % (E('NA'), ET(a), ET(b))),
+        U('cut(missing)', lambda a: etl.cut(a, 'v', 'k', missing='NA'), lambda a: 'xf cut %s %s %s' % (K(('v', 'k')), E('NA'), ET(a))),
         U('cache', lambda a: etl.wrap(a).cache(), None),
         U('progress', lambda a: etl.progress(a, 10, out=open('/dev/null', 'w')), None),
     ]
